@@ -65,6 +65,9 @@ def corpus(prop):
     import glob
     import json
     refactors = sorted(glob.glob(os.path.join(VERIF, "neutral", "*.diff")))
+    # small commits that change behaviour without touching any property (new optional parameter, extra accepted spelling, other
+    # exception text, finer grid ...): every check must stay silent on them too
+    refactors += sorted(glob.glob(os.path.join(VERIF, "feature", "small", "*.diff")))
     seeded = []
     for d in sorted(glob.glob(os.path.join(VERIF, "seeded", "*", "meta.json"))):
         try:
